@@ -9,11 +9,16 @@
        of the including file runs on the resulting state; the effect of a file with one include equals the
        effect of the flattened statement list (store, registry, constants, lock, success / error class);
        the returned tree mirrors the include structure.
-   NOT proved in Coq: arbitrary nesting depth as ONE theorem (the one-level theorem composes; the
-   correspondence engine textm exercises depth up to 3), package-relative names through the Python path
-   (not modelled) and the multi-file entry point (modelled in Model/StmtEngine.v, validated only). *)
+     - to any depth: for any number of includes at any nesting depth, parsing equals consuming the
+       recursively flattened statement list (C14_flatten_any_depth), and the returned value is the include
+       tree with each file's own imports (C14_tree_mirrors_includes);
+     - the multi-file entry point applies the files in the order given, stops at the first error (later
+       files and the bindings untouched), then the bindings, then finalizes iff asked to (lock unchanged
+       otherwise);
+     - without skip_unknown an unknown target is an error at every entry point.
+   Outside the model: package-relative names through the Python path, os.path / open. *)
 From Coq Require Import List String ZArith Bool Arith.
-From GinV Require Import Lib.Out Lib.PyStr Model.SelectorMap Model.Parser Model.Stmt Model.StmtSpec Proofs.StmtProofs Proofs.StmtProofs2.
+From GinV Require Import Lib.Out Lib.PyStr Model.SelectorMap Model.Parser Model.Stmt Model.StmtSpec Model.StmtEngine Proofs.StmtProofs Proofs.StmtProofs2 Proofs.StmtProofs3.
 Import ListNotations.
 Open Scope string_scope.
 Open Scope list_scope.
@@ -99,6 +104,65 @@ Proof. exact StmtProofs2.C14_flatten_store. Qed.
 Theorem C14_flatten_nonvacuous : True.
 Proof. pose proof StmtProofs2.C14Example.hyps. exact I. Qed.
 
+(* ---- any depth ---- *)
+Theorem C14_flatten_any_depth : forall fuel env sk fname o pending ts s im ic gs flat,
+  parse_groups fuel o pending ts = (gs, None) -> List.length gs < fuel -> flatten_groups fuel env gs = Some flat ->
+  sim (fst (parse_tokens fuel env sk fname o pending ts s im ic)) (fst (consume env sk fname no_inc flat s im ic)) /\
+  res_sim (snd (parse_tokens fuel env sk fname o pending ts s im ic)) (snd (consume env sk fname no_inc flat s im ic)).
+Proof. exact StmtProofs3.C14_flatten_any_depth. Qed.
+
+Theorem C14_tree_mirrors_includes : forall fuel env sk fname o pending ts s im ic gs flat trees s1 imR icR,
+  parse_groups fuel o pending ts = (gs, None) -> List.length gs < fuel -> flatten_both fuel env gs = Some (flat, trees) ->
+  parse_tokens fuel env sk fname o pending ts s im ic = (s1, SOk (imR, icR)) ->
+  imR = im ++ imports_of env gs /\ icR = ic ++ trees.
+Proof. exact StmtProofs3.C14_tree_mirrors_includes. Qed.
+
+Theorem C14_parse_config_file_any_depth : forall env sk name full g s ts gs flat trees,
+  resolve_file env name = Some (full, g) ->
+  settle (f_tokens g) = POk ts -> parse_groups 60 (f_oracle g) false ts = (gs, None) -> List.length gs < 60 ->
+  flatten_both 60 env gs = Some (flat, trees) ->
+  sim (fst (parse_config_file env sk name s)) (fst (consume env sk full no_inc flat s [] [])) /\
+  res_sim (snd (parse_config_file env sk name s)) (snd (consume env sk full no_inc flat s [] [])) /\
+  (forall s1 t, parse_config_file env sk name s = (s1, SOk t) -> t = INode name (imports_of env gs) trees).
+Proof. exact StmtProofs3.C14_parse_config_file_any_depth. Qed.
+
+(* the flattened list contains no include any more *)
+Theorem C14_flattened_is_include_free : forall fuel env gs flat trees,
+  flatten_both fuel env gs = Some (flat, trees) -> no_includes flat.
+Proof. exact flatten_both_no_includes. Qed.
+
+(* hypotheses satisfiable at depth 2 with two includes in one file *)
+Theorem C14_any_depth_nonvacuous : True.
+Proof. pose proof StmtProofs3.C14DeepExample.hyps. exact I. Qed.
+
+(* ---- the multi-file entry point ---- *)
+Theorem C14_files_then_bindings_then_finalize : forall env s files b fin sk,
+  run_call2 env s (PFilesBindings files b fin sk) =
+  (let '(s1, r) := parse_files env sk files s in
+   match r with SErr e => (s1, serr_out e)
+   | SOk trees => let '(s2, r2) := parse_config env sk "" b s1 in
+                  match r2 with SErr e => (s2, serr_out e) | SOk _ => finalize_step fin trees s2 end end).
+Proof. exact StmtProofs3.C14_files_then_bindings_then_finalize. Qed.
+
+Theorem C14_entry_stops_at_first_error : forall env sk fs1 f fs2 b fin s s1 ts1 s2 e,
+  parse_files env sk fs1 s = (s1, SOk ts1) -> parse_config_file env sk f s1 = (s2, SErr e) ->
+  run_call2 env s (PFilesBindings (fs1 ++ f :: fs2) b fin sk) = (s2, serr_out e).
+Proof. exact StmtProofs3.C14_entry_stops_at_first_error. Qed.
+
+Theorem C14_entry_no_finalize_keeps_lock : forall env s files b sk,
+  t_locked (fst (run_call2 env s (PFilesBindings files b false sk))) = t_locked s.
+Proof. exact StmtProofs3.C14_entry_no_finalize_keeps_lock. Qed.
+
+(* ---- unknown names are errors unless skip_unknown is passed ---- *)
+Theorem C14_unknown_is_error_parse_config : forall env fname g s ts gs pe,
+  settle (f_tokens g) = POk ts -> parse_groups 60 (f_oracle g) false ts = (gs, pe) -> no_includes gs -> has_unknown s gs ->
+  exists e, snd (parse_config env SkFalse fname g s) = SErr e.
+Proof. exact C15_parse_config_unknown_is_error. Qed.
+Theorem C14_unknown_is_error_entry_point : forall env s files b fin ts gs pe,
+  settle (f_tokens b) = POk ts -> parse_groups 60 (f_oracle b) false ts = (gs, pe) -> no_includes gs -> has_unknown s gs ->
+  exists e, snd (run_call2 env s (PFilesBindings files b fin SkFalse)) = serr_out e.
+Proof. exact C15_entry_unknown_binding_is_error. Qed.
+
 Print Assumptions C14_resolve_order.
 Print Assumptions C14_resolve_first.
 Print Assumptions C14_absolute_bypasses.
@@ -110,3 +174,13 @@ Print Assumptions C14_include_step.
 Print Assumptions C14_inplace_sequential.
 Print Assumptions C14_flatten.
 Print Assumptions C14_flatten_nonvacuous.
+Print Assumptions C14_flatten_any_depth.
+Print Assumptions C14_tree_mirrors_includes.
+Print Assumptions C14_parse_config_file_any_depth.
+Print Assumptions C14_flattened_is_include_free.
+Print Assumptions C14_any_depth_nonvacuous.
+Print Assumptions C14_files_then_bindings_then_finalize.
+Print Assumptions C14_entry_stops_at_first_error.
+Print Assumptions C14_entry_no_finalize_keeps_lock.
+Print Assumptions C14_unknown_is_error_parse_config.
+Print Assumptions C14_unknown_is_error_entry_point.
